@@ -2465,7 +2465,11 @@ Expr={expr}"""
         if random_state is None:
             random_state = np.random.RandomState()
 
-        state_data = random_state_data(self.npartitions, random_state)
+        # Self-contained copies: the token of a view into the shared buffer
+        # differs from the token of its unpickled (owning) twin
+        state_data = [
+            state.copy() for state in random_state_data(self.npartitions, random_state)
+        ]
         return new_collection(
             expr.Sample(self, state_data=state_data, frac=frac, replace=replace)
         )
